@@ -527,7 +527,11 @@ func (g *dgen) literal() string {
 	case 0, 1:
 		s += "@" + g.r.LangTag()
 	case 2, 3:
-		s += "^^" + g.iri()
+		if g.r.Chance(6) { // datatypes that require a tag: rejected, the error carries the IRI's range
+			s += "^^<http://www.w3.org/1999/02/22-rdf-syntax-ns#" + vh.Pick(g.r, []string{"langString", "dirLangString"}) + ">"
+		} else {
+			s += "^^" + g.iri()
+		}
 	}
 	return s
 }
@@ -615,7 +619,7 @@ var cornerDocs = []string{
 	"<a:a> <a:b> <a:c> <a:g> .\n<a:a> <a:b> <a:c> <a:g> .\n", "<a:a> <a:b> \"x\"@en-Latn-US .\r\n<a:a> <a:b> \"\"^^<a:t>.\r\n", "<a:a> <a:b> _:a.b.\n_:a.b. <a:b> _:c. .",
 	"<a:a> <a:b> \"x\"@en- .\n", "<a:a> <a:b> \"x\"@ .\n", "<a:a> <a:b> \"x\"@en--a .\n", "_:a.. <a:b> <a:c> .\n", "_", "_x", "_:", "_:a", "<http://a", "# c", "  \n",
 	"<a:a> <a:b> <a:c> . # c", "<a:a> <a:b> <a:c> .\r<a:a> <a:b> <a:d> .\r\n", "<a:a>\u00a0<a:b>\u2028<a:c>\u3000.\n", "<a:a> <a:b> \"a\nb\r\nc\" .\n<a:a> <a:b> <a:c> .\n",
-	"<rel> <a:b> <a:c> .\n", "<a:a> <a:b> \"x\"^^<rel> .\n", "<a:a> <a:b> \"x\"^^<http://www.w3.org/1999/02/22-rdf-syntax-ns#langString> .\n",
+	"<rel> <a:b> <a:c> .\n", "<a:a> <a:b> \"x\"^^<rel> .\n", "<a:a> <a:b> \"x\"^^<http://www.w3.org/1999/02/22-rdf-syntax-ns#langString> .\n", "<a:a> <a:b> \"x\"^^<http://www.w3.org/1999/02/22-rdf-syntax-ns#dirLangString> .\n<a:a> <a:b> <a:c> .\n",
 	"<a:\\u00e9\\U0001F600> <a:b> \"\\u00e9\\n\" .\n<a:é😀> <a:b> \"é\n\" .\n", "<a:a> <a:b> \"\\uD800\" .\n", "<a:a> <a:b> \"\\U00110000\" .\n", "<a:a> <a:b> \"\\u00g0\" .\n", "<a:a\\x> <a:b> <a:c> .\n",
 	"<a:a> <a:b> \"\xff\xfe\" .\n<a:a> <a:b> <a:c\xc3> .\n", "<a:a> # c\n <a:b> #d\r\n <a:c> # e\n . # f\n<a:a> <a:b> <a:c> .", "<a:a> <a:b> <a:c> . x\n", "<a:a> <a:b> <a:c> <a:g> x\n", "<a:a> <a:b> <a:c> #c",
 	"<a:a> <a:b> e\u0301 .\n", "<a:a> <a:b> \"e\u0301\" .\n<a:a> <a:b> \"\U0001F1E6\U0001F1FA\" <a:g> .\n",
